@@ -152,7 +152,7 @@ theorem run_one {μ ο : Type} (mon : ObsMonitor ο μ) (ms ms' : μ) (x : ο) (
 /-- **one model step is matched by the linearization checker** -/
 theorem sim_step (s : St) (e : Ev) (s' : St) (ms : LinSt (List Nat) SOp SRes) (hR : Rel s ms)
     (hs : step s e = some s') :
-    ∃ ms', (linMon stackSpec).run ms (label model Obs.toH linOf s e) = some ms' ∧ Rel s' ms' := by
+    ∃ ms', (linMon stackSpec).run ms (label model Obs.toHO linOf s e) = some ms' ∧ Rel s' ms' := by
   have hlen := calls_len s ms hR
   cases e with
   | invPush t v =>
